@@ -310,10 +310,10 @@ def banner(ctx, report, RULE='C07.R6'):
             seq.append(('alt', [(x.kind[2:], show(x.val)) for x in e.a]))
     want = [('string', "'SSH'"), ('separator', "'-'"), ('nested', 'self.protocol_version'), ('separator', "'-'"),
             ('string', 'self.software_version'), ('alt', [('separator', "' '"), ('string', 'self.comment')]), ('separator', "'\\r\\n'")]
-    f = c.methods['compose']
+    f = c.resolve('compose')
     if seq != want:
         report.add(RULE, f.construct + '@grammar', 'banner is composed as %s, RFC 4253 4.2 says %s' % (seq, want))
-    p = c.methods['_parse']
+    p = c.resolve('_parse')
     if banner_tabulation(ctx, report, c, p, RULE):
         return
     src = ast.unparse(p.node)
@@ -383,6 +383,7 @@ def banner_tabulation(ctx, report, c, p, RULE='C07.R6'):
         return {'SshProtocolVersion': Kind('version'), 'SshSoftwareVersionParsedVariant': Kind('software-parsed'),
                 'SshSoftwareVersionUnparsed': Kind('software'), 'cls': 'cls'}.get(name) or (_ for _ in ()).throw(Unsupported('free name %s' % name))
     hook = class_call_hook(c, extra, ctx.model)
+    names = hook.name_hook_for(c.module, names)         # class level constants and helper methods named as values resolve through the class
     fill = 'x' * (255 - len('SSH-2.0-\r\n'))
     cases = [
         ('SSH-2.0-OpenSSH_8.9 some comment here\r\n', '', ((2, 0), 'OpenSSH_8.9', 'some comment here')),
@@ -450,7 +451,7 @@ def software_versions(ctx, report):
     if base is None or '_parse' not in base.methods:
         report.error('%s: SshSoftwareVersionParsedBase._parse vanished' % rule)
         return
-    f = base.methods['_parse']
+    f = base.resolve('_parse')
     report.touch(f)
     it = ctx.interp
     for c in ctx.model.all_subclasses(base):
